@@ -26,6 +26,7 @@ CHECKS = {
  'C07': dict(ref='§4 C07', note='Trusted base: GlobMatcher::is_match and the hex SHA-256 prefix test are uninterpreted functions of (pattern, string); HashMap::get finds an entry iff the role lists the name. Targets::find_target, PathSet/PathPattern/PathHashPrefix::matches_target_name, TargetName::resolved and Targets::validate run from MIR on delegation trees of depth <=3 and fan-out <=3 with 1..2 patterns/prefixes per delegation, symbolic membership of one (find_target) / two (validate) names in every role, raw != resolved and raw == resolved names; a native sweep (663 repositories with real globs/hash prefixes) validates the model end to end. Larger trees are outside the claim.'),
  'C08': dict(ref='§4 C08', note=BASE + 'Repository::save_target runs from MIR for both Prefix modes, names that do / do not need resolution, and a scripted verified stream of 0..2 (quick) / 0..3 (thorough) items each Ok(bytes) or Err; whether parent(outdir.join(name)) starts with outdir is an uninterpreted predicate of the file-name variant (Path::join/parent/starts_with are lexical in std); NamedTempFile::new_in / persist / drop follow the tempfile contract (create in dir, rename(2), unlink on drop). Obligations: no fs effect before the containment check passes, bytes only go to the temp file, rename only after the stream ended Ok, temp file gone on every error path, nothing outside outdir. A native sweep (real files, hostile names, failing streams) validates the model.'),
  'C16': dict(ref='§4 C16', note='Trusted base: percent_encoding::utf8_percent_encode escapes exactly the bytes of the AsciiSet plus non-ASCII (the set itself is evaluated from the const initialiser in the MIR of the current tree); encode_filename and its call sites (datastore names, cache file names, target file names, role URLs) run from MIR; injectivity and path-safety are solver queries over symbolic bytes (names of <=4 bytes; longer names follow by the byte-wise definition, stated as outside the solver claim); native sweep over all 1- and 2-byte names and a hostile menu compares against a reference encoder and against the real file system.'),
+ 'C17': dict(ref='§4 C17', note='Trusted base: SignedRole::new(role, ..) either fails or wraps exactly `role`; SignedRole::from_signed wraps exactly its argument; Clone is deep; HashMap::extend/insert overwrite, unwrap_or_default is the empty map; Targets::validate may accept or refuse (C07); RepositoryEditor::new yields an editor with every optional field unset. RepositoryEditor::{from_repo, targets, snapshot, timestamp, *_version, *_expires, add_target, sign, sign_targets_editor, build_snapshot, build_timestamp, snapshot_meta, timestamp_meta}, TargetsEditor::{from_targets, version, expires, add_target, create_signed, build_targets}, Targets::signed_delegated_targets and Signed::delegated_targets/targets run from MIR as one chain. Target maps and unknown-member maps are arbitrary functions (any size); loaded delegation trees: none / nested (quick) plus flat and depth-3 (thorough); 0..1 (quick) / 0..2 (thorough) added targets with symbolic names. A native sweep (18 repositories per seed: extras, custom data, thresholds 2-of-3, odd role names, both consistent-snapshot settings, +0/+1/+3 targets) is the replay of every counterexample class.'),
 }
 
 NA = {
